@@ -138,3 +138,30 @@ func (s *Server) Do(ctx context.Context, e *univ.Exec, query, opName string, var
 	}
 	return &Response{Data: resp.Data, Errors: resp.Errors, Recovers: int(recovers.Load()), HasNext: resp.HasNext, Label: resp.Label, Path: resp.Path}
 }
+
+// DoAll executes one operation and reads payloads until the response handler returns nil (or max
+// payloads were read).
+func (s *Server) DoAll(ctx context.Context, e *univ.Exec, query, opName string, vars map[string]any, max int) (out []*Response, rejected bool) {
+	s.U.SetExec(e)
+	var recovers atomic.Int64
+	ex := s.Exec
+	ex.SetRecoverFunc(func(ctx context.Context, err any) error {
+		recovers.Add(1)
+		return gqlerror.Errorf("%s", RecoverMsg(err))
+	})
+	ctx = graphql.StartOperationTrace(ctx)
+	rc, errs := ex.CreateOperationContext(ctx, &graphql.RawParams{Query: query, OperationName: opName, Variables: vars})
+	if errs != nil {
+		resp := ex.DispatchError(graphql.WithOperationContext(ctx, rc), errs)
+		return []*Response{{Errors: resp.Errors, Rejected: true}}, true
+	}
+	rh, ctx2 := ex.DispatchOperation(ctx, rc)
+	for i := 0; i < max; i++ {
+		resp := rh(ctx2)
+		if resp == nil {
+			break
+		}
+		out = append(out, &Response{Data: resp.Data, Errors: resp.Errors, Recovers: int(recovers.Load()), HasNext: resp.HasNext, Label: resp.Label, Path: resp.Path})
+	}
+	return out, false
+}
